@@ -99,6 +99,8 @@ func StructuralTypeTests(c *Ctx) []TypeTest {
 						guard = "tuple" // tuple types are never named
 					case tg == "*types.Signature" && isFuncObjectType(x, p.TypesInfo):
 						guard = "func-object" // the type of a *types.Func / *ssa.Builtin / *ssa.Function object is an unnamed signature
+					case tg == "*types.Pointer" && isAddressInstrType(x, p.TypesInfo):
+						guard = "address-instruction" // Alloc, FieldAddr, IndexAddr and Global values have an unnamed pointer type by construction
 					}
 					res = append(res, TypeTest{Pos: c.Pos(at.Pos()), PkgRel: rel, Func: rel + "." + fname, Operand: types.ExprString(x), Target: tg, Guard: guard, Node: at})
 				}
@@ -170,4 +172,27 @@ func isFuncObjectType(e ast.Expr, info *types.Info) bool {
 	}
 	s := t.String()
 	return strings.HasSuffix(s, "go/types.Func") || strings.HasSuffix(s, "ssa.Builtin") || strings.HasSuffix(s, "ssa.Function")
+}
+
+// isAddressInstrType: e is `X.Type()` with X an *ssa.Alloc, *ssa.FieldAddr, *ssa.IndexAddr or *ssa.Global.
+func isAddressInstrType(e ast.Expr, info *types.Info) bool {
+	call, ok := ast.Unparen(e).(*ast.CallExpr)
+	if !ok {
+		return false
+	}
+	se, ok := call.Fun.(*ast.SelectorExpr)
+	if !ok || se.Sel.Name != "Type" {
+		return false
+	}
+	t := info.TypeOf(se.X)
+	if t == nil {
+		return false
+	}
+	s := t.String()
+	for _, k := range []string{"ssa.Alloc", "ssa.FieldAddr", "ssa.IndexAddr", "ssa.Global"} {
+		if strings.HasSuffix(s, k) {
+			return true
+		}
+	}
+	return false
 }
